@@ -12,6 +12,18 @@ import warnings
 from .core import BUILD, Check, MachineryError, import_repo, parallel_map, require_tlc_ok, run_tlc, scratch, tier
 
 
+def root_in_bracket(eq, rc, rp):
+    """Does the conductivity that reproduces rc + rp lie inside the tool's documented bracket [k0 / 100, 10 k0] (k0 = preliminary
+    equal-wall-volume conductivity)? Computed from the equivalent tube's radii and its own film resistance, not from the solver."""
+    lnr = math.log(eq.pipe.r_out / eq.pipe.r_in)
+    k0 = lnr / (2.0 * math.pi * 2 * rp)
+    need = (rc + rp) - eq.R_f
+    if need <= 0:
+        return False
+    k_req = lnr / (2.0 * math.pi * need)
+    return bool(k0 / 100.0 <= k_req <= 10.0 * k0)
+
+
 def ppm(a, b):
     if b == 0:
         return 0 if a == 0 else 2_000_000_000
@@ -116,7 +128,7 @@ def _convert(seed):
             ev = [
                 {"e": "Volumes", "dvf_ppm": ppm(vf1, vf0), "dvp_ppm": ppm(vp1, vp0), "target_ppm": ppm(rc + rp, target_ref)},
                 {"e": "Radii"},
-                {"e": "SolvePipeK", "oc": calls[0]["oc"], "dev_ppm": ppm(rfp1, rc + rp), "kind": kind},
+                {"e": "SolvePipeK", "oc": calls[0]["oc"], "dev_ppm": ppm(rfp1, rc + rp), "kind": kind, "root_in_bracket": root_in_bracket(eq, rc, rp)},
                 {"e": "SolveGroutK", "oc": calls[1]["oc"], "rb_dev_ppm": ppm(rb1, rb0)},
                 {"e": "End"},
             ]
@@ -159,7 +171,7 @@ def _convert(seed):
                 traces.append({"desc": desc2, "events": [
                     {"e": "Volumes", "dvf_ppm": ppm(vf1, vf0), "dvp_ppm": ppm(vp1, vp0), "target_ppm": ppm(rc + rp, target_ref) if same_flow else 999999},
                     {"e": "Radii"},
-                    {"e": "SolvePipeK", "oc": oc1, "dev_ppm": ppm(rfp1, rc + rp), "kind": kind},
+                    {"e": "SolvePipeK", "oc": oc1, "dev_ppm": ppm(rfp1, rc + rp), "kind": kind, "root_in_bracket": root_in_bracket(eq, rc, rp)},
                     {"e": "SolveGroutK", "oc": oc2, "rb_dev_ppm": ppm(rb1, rb0)},
                     {"e": "End"}]})
         # a single U-tube converts to itself
@@ -241,7 +253,7 @@ def run() -> int:
 
 def selfcheck_binding():
     """Corrupt one recorded field / drop one event and expect the trace validator to reject (used by ./check selftest)."""
-    good = [{"e": "Volumes", "dvf_ppm": 0, "dvp_ppm": 0, "target_ppm": 0}, {"e": "Radii"}, {"e": "SolvePipeK", "oc": "Bracketed", "dev_ppm": 3, "kind": "COAXIAL"},
+    good = [{"e": "Volumes", "dvf_ppm": 0, "dvp_ppm": 0, "target_ppm": 0}, {"e": "Radii"}, {"e": "SolvePipeK", "oc": "Bracketed", "dev_ppm": 3, "kind": "COAXIAL", "root_in_bracket": True},
             {"e": "SolveGroutK", "oc": "Bracketed", "rb_dev_ppm": 40}, {"e": "End"}]
     bad1 = json.loads(json.dumps(good))
     bad1[3]["rb_dev_ppm"] = 4000
